@@ -63,6 +63,15 @@ def infer_score_with_chords_durations(sequence, chords, instruments, bars):
                     chord_dict[voice_name], cont = _parse_voice(voice_notes, chord,time_start, time_end, 1, cont, is_drum=instrument.startswith('drum'))
                     continuations[voice_name] = cont
 
+        # Voices that start nothing in this bar but still hold a note from a previous bar
+        for voice_name, cont in list(continuations.items()):
+            if cont is not None and cont.duration > 0 and voice_name not in chord_dict:
+                held = min(cont.duration, time_end - time_start)
+                chord_dict[voice_name] = Continuation(held).to_melody()
+                if held < time_end - time_start:
+                    chord_dict[voice_name] += Silence(time_end - time_start - held)
+                continuations[voice_name] = Continuation(cont.duration - held) if cont.duration > held else None
+
         final_chord = chord(**chord_dict)
         if len(chord_dict) == 0:
             if idx > 0:
